@@ -177,7 +177,9 @@ def run(check, repo: Repo) -> None:
             check.decide(not late, "C11-R2", f"Vector.{mname}: no raise is reachable after the schema store (failure-atomic)",
                          "", mod.line(fs.stmt),
                          fail_detail=f"a `raise` at line(s) {[cfg.nodes[r].lineno for r in late]} is reachable after "
-                                     f"self._fields was replaced: a rejected call leaves a corrupted schema behind")
+                                     f"self._fields was replaced: a rejected call leaves a corrupted schema behind",
+                         # an explicit raise reached from the store with no restoring store in between: a CFG fact, independent of layout
+                         definite=any(r in cfg.reachable_from(fs.id, avoid={o.id for o in fstores if o is not fs}) for r in late))
     check.floor("schema stores outside setters", n_schema, 2)
     # add_fields: disjointness and uniqueness guards dominate the store
     _, af = repo.func(f"{VEC}:Vector.add_fields")
